@@ -1,11 +1,11 @@
 (* C12 - rcu_list traversals are consistent and writers are serialised.
-   Statements only; every proof is `exact <lemma>` into Proofs/RcuListProofs.v.
+   Statements only; every proof is `exact <lemma>` into Proofs/RcuListProofs.v, RcuTravProofs.v.
    All theorems quantify over any number of threads, any client programs over the rcu_guarded /
    rcu_list API (RcuModel.op) and every schedule (including spurious weak-CAS failures, choice 3);
    [unf] selects the pre-repair reclaim step (DESIGN section 6) - Layer A does not depend on it. *)
-From Coq Require Import List Arith ZArith Lia Bool.
+From Coq Require Import List Arith ZArith Lia Bool Sorted.
 Import ListNotations.
-From GV Require Import Sched Events RcuModel RcuBase RcuListProofs.
+From GV Require Import Sched Events RcuModel RcuBase RcuListProofs RcuTravProofs.
 Local Open Scope Z_scope.
 
 (* Writers are serialised: in every reachable state the abstract list (ghost [lst], updated at the
@@ -40,6 +40,41 @@ Theorem rcu_refs_published : forall unf progs s t l c,
   R unf progs s -> nth_error (thr s) t = Some l -> In c (nrefs l) -> pubn (gl s) c.
 Proof. exact refs_published. Qed.
 
+(* ---------- traversals ----------
+   A traversal is described by [trav unf progs K s v x]: in state s the iterator has visited the nodes
+   v (in this order) and now holds x (None = end()).  It starts in any reachable state by loading
+   m_head ([tr_begin]; this is what the B_ld step of the model does, [rcu_begin_reads_head]), it
+   advances by loading the next field of its current node in the then current state ([tr_next]; the
+   N_ld step, [rcu_next_reads_next]), and between these loads any thread may take any step
+   ([tr_time]).  K is a set of nodes that are in the list at the first load and after every step
+   since, i.e. elements that no writer erases during the traversal. *)
+
+(* the visited nodes and the current one are strictly increasing in list position: the traversal
+   goes through the list in list order and meets no node twice *)
+Theorem rcu_traversal_sorted_nodup : forall unf progs K s v x, trav unf progs K s v x ->
+  StronglySorted (fun a b => ps (gl s) a < ps (gl s) b) (v ++ o2l x) /\ NoDup (v ++ o2l x).
+Proof. exact trav_sorted. Qed.
+
+(* every node the traversal meets is a published node and some push_front / push_back / emplace
+   inserted it (the writer log contains its push) *)
+Theorem rcu_traversal_inserted : forall unf progs K s v x c, trav unf progs K s v x -> In c (v ++ o2l x) ->
+  pubn (gl s) c /\ (In (MPushF c) (mlog (gl s)) \/ In (MPushB c) (mlog (gl s))).
+Proof. exact trav_inserted. Qed.
+
+(* no skip: a traversal that has reached end() has visited every element that was in the list from
+   its begin() on - whatever the writers erased or pushed around those elements meanwhile, and also
+   when the traversal itself went through nodes that were erased under it *)
+Theorem rcu_no_skip : forall unf progs K s v, trav unf progs K s v None -> incl K v.
+Proof. exact no_skip. Qed.
+
+(* the two loads of the model are the two loads of [trav] *)
+Theorem rcu_begin_reads_head : forall t c g l g' l' es it, at_ l = B_ld it -> tstep t c g l = Some (g', l', es) ->
+  g' = g /\ its l' = setit (its l) it (head g).
+Proof. exact begin_reads_head. Qed.
+Theorem rcu_next_reads_next : forall t c g l g' l' es it cu, at_ l = N_ld it cu -> tstep t c g l = Some (g', l', es) ->
+  its l' = setit (its l) it (nx g cu).
+Proof. exact next_reads_next. Qed.
+
 (* ---------- non-vacuity ---------- *)
 Definition ex_progs : list (list op) :=
   [[LockWrite; PushBack 10; PushBack 20; PushFront 5; Begin 0; Next 0; Erase 0; Release];
@@ -54,3 +89,11 @@ Example ex_erase_under_reader :
   wmtx (gl ex_state) = Some 0%nat /\
   (exists l, nth_error (thr ex_state) 1 = Some l /\ In 1%nat (nrefs l)) /\ nx (gl ex_state) 1 = Some 2%nat.
 Proof. vm_compute. repeat split; auto. eexists; split; [reflexivity|]. cbn. auto. Qed.
+
+(* a traversal in the same run: it starts when the list is [3; 1; 2], stands on node 1 while the
+   writer erases 1, and still reaches 2 and the end through the erased node's next pointer; the
+   elements that stayed, 3 and 2, are both visited *)
+Example ex_traversal_over_erased :
+  lst (gl tex_s1) = [3; 1; 2]%nat /\ lst (gl tex_s2) = [3; 2]%nat /\
+  trav false tex_progs [3; 2]%nat tex_s2 [3; 1; 2]%nat None.
+Proof. exact tex_trav. Qed.
